@@ -33,9 +33,10 @@ class DecoratorHelper:
 		join_args = decorator[args_begin + 1:len(decorator) - 1]
 		args: dict[str, str] = {}
 		for index, arg in enumerate(BlockParser.break_separator(join_args, ',')):
-			if arg.count('=') > 0:
-				label, *remain = arg.split('=')
-				args[label] = '='.join(remain)
+			label_value = BlockParser.break_separator(arg, '=')
+			if len(label_value) > 1:
+				label = label_value[0]
+				args[label] = arg[arg.find('=', len(label)) + 1:].strip(' ')
 			else:
 				args[str(index)] = arg
 
